@@ -1,5 +1,7 @@
 (* C12 -- Installed tracepoints converge to the service's latest configuration. *)
 From Deep Require Import Base ConfigSvc ConfigSvcProofs.
+From DeepGen Require Import PService.
+From Deep Require Import PureSupport TieService.
 
 (* for every sequence of poll answers, register / unregister calls and task executions (any of the two
    running tasks first): once no update task is pending, what the handler acts on is exactly the latest
@@ -31,3 +33,28 @@ Theorem C12_captured_refuted :
   pending captured_witness = [] /\ installed captured_witness = [1%nat] /\ latest captured_witness = [2%nat].
 Proof. exact captured_refuted. Qed.
 Print Assumptions C12_captured_refuted.
+
+(* ---- tie by translation: the service's update methods and the handler's listener as they are in /repo/src NOW
+   (gen/PService.v is regenerated on every run) are the steps of the model *)
+Theorem C12_the_code_steps_are_the_model :
+  forall s ts h c,
+  gen_update_no_change (last_update s) ts = last_update (step true s (PollNoChange ts)) /\
+  gen_update_new_config (polled s) (hash s) (last_update s) (pending s) ts h c =
+    (let s' := step true s (PollUpdate ts h c) in (polled s', hash s', last_update s', pending s')) /\
+  (forall k t oh ch oc, (k < 2)%nat -> nth_error (pending s) k = Some t ->
+     gen_update_listeners (polled s) (hash s) (map snd (custom s)) (installed s) ts oh ch oc (tk_captured t) =
+     installed (step true s (RunTask k))) /\
+  (forall i oh ch oc newc, gen_listener_config_change i ts oh ch oc newc = newc).
+Proof.
+  intros. split; [apply tie_no_change|]. split; [apply tie_new_config|]. split; [|reflexivity].
+  intros. apply tie_run_task; assumption.
+Qed.
+Print Assumptions C12_the_code_steps_are_the_model.
+
+(* stated over the translated code: what an update task installs does not depend on the configuration it was handed
+   when it was submitted - it is the polled configuration of the moment it runs, followed by the registrations *)
+Theorem C12_the_code_installs_the_current_state :
+  forall polled hash custom installed ts oh ch oc captured,
+  gen_update_listeners polled hash custom installed ts oh ch oc captured = polled ++ custom.
+Proof. reflexivity. Qed.
+Print Assumptions C12_the_code_installs_the_current_state.
